@@ -483,6 +483,15 @@ def _isinstance_facts(test, positive=True):
         for v in test.values:
             out.extend(_isinstance_facts(v, True))
         return out
+    if isinstance(test, ast.BoolOp) and isinstance(test.op, ast.Or) and positive:
+        # isinstance(x, A) or isinstance(x, B)  ==  isinstance(x, (A, B))
+        parts = [_isinstance_facts(v, True) for v in test.values]
+        if all(len(p) == 1 for p in parts) and len({p[0][0] for p in parts}) == 1:
+            classes = []
+            for p in parts:
+                classes.extend(c for c in p[0][1] if c not in classes)
+            return [(parts[0][0][0], tuple(classes))]
+        return out
     if isinstance(test, ast.Call) and norm(test.func) == 'isinstance' and len(test.args) == 2 \
             and isinstance(test.args[0], ast.Name) and positive:
         cls = test.args[1]
